@@ -325,6 +325,19 @@ func (c *lctx) save() lsaved {
 func (c *lctx) restore(s lsaved) { c.env, c.order = s.env, s.order }
 
 func (c *lctx) forLoop(s *ast.ForStmt, next func() string) string {
+	// `for x < bound && a[i] == b[j] { x++ }` is `for ; x < bound; x++ { if a[i] != b[j] { break } }`
+	if s.Init == nil && s.Post == nil && s.Cond != nil && len(s.Body.List) == 1 {
+		if and, ok := unparen(s.Cond).(*ast.BinaryExpr); ok && and.Op == token.LAND {
+			if eq, ok := unparen(and.Y).(*ast.BinaryExpr); ok && eq.Op == token.EQL {
+				if inc, ok := s.Body.List[0].(*ast.IncDecStmt); ok && inc.Tok == token.INC {
+					neq := &ast.BinaryExpr{X: eq.X, OpPos: eq.OpPos, Op: token.NEQ, Y: eq.Y}
+					brk := &ast.IfStmt{If: eq.Pos(), Cond: neq, Body: &ast.BlockStmt{Lbrace: eq.Pos(), List: []ast.Stmt{&ast.BranchStmt{TokPos: eq.Pos(), Tok: token.BREAK}}, Rbrace: eq.End()}}
+					canon := &ast.ForStmt{For: s.For, Cond: and.X, Post: inc, Body: &ast.BlockStmt{Lbrace: s.Body.Lbrace, List: []ast.Stmt{brk}, Rbrace: s.Body.Rbrace}}
+					return c.forLoop(canon, next)
+				}
+			}
+		}
+	}
 	// cond: x < bound
 	cond, ok := unparen(s.Cond).(*ast.BinaryExpr)
 	if !ok || cond.Op != token.LSS {
